@@ -25,6 +25,15 @@ ASSUMPTIONS = [
 ]
 
 
+def resources2(nparts, cap=1):
+    """F5: Source -> {P1(res r:1), P2(res r:1)} -> Sink, pool r of the given capacity."""
+    return {'pools': {'r': cap} if cap else {}, 'devices': [
+        {'k': 'source', 'name': 'src', 'cycle': 'c0', 'parts': nparts},
+        {'k': 'proc', 'name': 'p1', 'up': ['src'], 'cycle': 'c1', 'res': {'r': 1}},
+        {'k': 'proc', 'name': 'p2', 'up': ['src'], 'cycle': 'c2', 'res': {'r': 1}},
+        {'k': 'sink', 'name': 'snk', 'up': ['p1', 'p2'], 'cycle': 'cs'}]}
+
+
 def _faults_basic(nparts, ops, **kw):
     return with_ops(serial('P', nparts), ops, **kw)
 
@@ -52,12 +61,17 @@ def _subs(tier, prop):
             {'k': 'shutdown', 'dev': 'p1', 't': 't0'}, {'k': 'restore', 'dev': 'p1', 't': 't1'}]), mons, zero=['cs'], pre=['t0 <= t1']))
         S.append(mk_sub('F8-block-unblock-n2', with_ops(serial('H', 2), [
             {'k': 'block', 'dev': 'h1', 't': 't0'}, {'k': 'unblock', 'dev': 'h1', 't': 't1'}]), mons, zero=['cs'], pre=['t0 <= t1']))
+        S.append(mk_sub('F6-fail-restore-n2', _faults_basic(2, [
+            {'k': 'fail', 'dev': 'p1', 't': 't0'}, {'k': 'restore', 'dev': 'p1', 't': 't1'}]), mons, zero=['cs'], pre=['t0 <= t1']))
+        S.append(mk_sub('F5-two-procs-one-pool', resources2(2), mons, zero=['cs', 'c0']))
+        S.append(mk_sub('F5-pool-raised-later', with_ops(resources2(2, cap=0), [
+            {'k': 'addres', 'res': 'r', 'amount': 1, 't': 't0'}]), mons, zero=['cs', 'c0']))
         S.append(mk_sub('F8-budget-raise', with_ops(serial('H', 1), [
             {'k': 'budget', 'dev': 'src', 't': 't0', 'n': 1}]), mons, zero=['cs']))
     elif prop == 'C05':
         mons = ['buffer']
         S.append(mk_sub('F1-B-n3-cap1', serial('B', 3, caps={1: 1}), mons, zero=['c0'] if q else []))
-        S.append(mk_sub('F1-B-n3-cap2', serial('B', 3, caps={1: 2}), mons, zero=['c0'] if q else []))
+        S.append(mk_sub('F1-B-n3-cap2', serial('B', 3, caps={1: 2}), mons, zero=['cs'] if q else []))
         S.append(mk_sub('F1-BP-n2-cap2', serial('BP', 2, caps={1: 2}), mons, zero=['cs']))
         S.append(mk_sub('F1-BP-n3-cap2-slow-consumer', serial('BP', 3, caps={1: 2}), mons, zero=['c0', 'cs']))
     elif prop == 'C06':
@@ -78,6 +92,8 @@ def _subs(tier, prop):
           S.append(mk_sub('F6-shutdown-restore-shutdown', _faults_basic(1, [
             {'k': 'shutdown', 'dev': 'p1', 't': 't0'}, {'k': 'restore', 'dev': 'p1', 't': 't1'},
             {'k': 'shutdown', 'dev': 'p1', 't': 't2'}]), mons, zero=['cs', 'c0'], pre=['t0 <= t1', 't1 <= t2']))
+        S.append(mk_sub('F6-fail-restore-n2', _faults_basic(2, [
+            {'k': 'fail', 'dev': 'p1', 't': 't0'}, {'k': 'restore', 'dev': 'p1', 't': 't1'}]), mons, zero=['cs'], pre=['t0 <= t1']))
         S.append(mk_sub('F1-P-offset', with_ops(serial('P', 2), [
             {'k': 'offset', 'dev': 'p1', 't': 0, 'amount': 'o1', 'prio': 'high'}]), mons, zero=['cs'],
             ranges={'o1': (-L.T, L.T)}))
